@@ -670,3 +670,70 @@ Fixpoint vm_steps (n : nat) (p : program) (s : vmstate) : outcome :=
   | O => Running s
   | S k => match vm_step p s with Running s' => vm_steps k p s' | o => o end
   end.
+
+(* ---------- compile and run on the VM model (correspondence with the real VM) ---------- *)
+Fixpoint enc_value (fuel : nat) (v : value) : sx :=
+  match fuel with
+  | O => Sym (s_ "deep")
+  | S f =>
+      match v with
+      | VNum x => Lst [Sym (s_ "num"); sx_float x]
+      | VBool b => Lst [Sym (s_ "bool"); sx_bool b]
+      | VStr s => Lst (Sym (s_ "str") :: map (fun b => Int (Z.of_N b)) s)
+      | VArr l => Lst (Sym (s_ "arr") :: map (enc_value f) l)
+      | VMap m => Lst (Sym (s_ "map") :: map (fun kv => Lst [Lst (map (fun b => Int (Z.of_N b)) (fst kv)); enc_value f (snd kv)]) m)
+      | VNone => Sym (s_ "none")
+      | VNil => Sym (s_ "nil")
+      end
+  end.
+
+Definition enc_perr (e : perr) : sx :=
+  Sym (s_ match e with
+          | EStackOverflow => "StackOverflow" | EDivZero => "DivideByZero" | EBadRepetition => "BadRepetition"
+          | EBounds => "Bounds" | EIndexValue => "IndexValue" | EMapKey => "MapKey" | Vm.ESlice => "Slice"
+          end).
+
+(* fuel in two levels, so that no huge unary number is ever built *)
+Fixpoint vm_run_k (fuel : nat) (p : program) (s : vmstate) : vmstate + final :=
+  match fuel with
+  | O => inl s
+  | S f =>
+      match vm_step p s with
+      | Running s' => vm_run_k f p s'
+      | Halted s' => inr (FHalted s')
+      | Failed e => inr (FFailed e)
+      | Crashed c => inr (FCrashed c)
+      end
+  end.
+Fixpoint vm_run_chunks (chunks chunk : nat) (p : program) (s : vmstate) : final :=
+  match chunks with
+  | O => FOutOfFuel
+  | S c => match vm_run_k chunk p s with
+           | inl s' => vm_run_chunks c chunk p s'
+           | inr f => f
+           end
+  end.
+
+(* (run (stmt…)) ↦ (halted sp (global…)) | (failed kind) | (crashed) | (outoffuel) | (compile-error) *)
+Definition run_case (x : sx) : sx :=
+  match x with
+  | Lst [Sym t; Lst stmts] =>
+      if str_eqb t (s_ "run") then
+        match dec_program 400 stmts with
+        | None => Sym (s_ "decode-error")
+        | Some p =>
+            match compile p with
+            | CErr _ => Lst [Sym (s_ "compile-error")]
+            | COk st =>
+                let prog := program_of (bytecode_of st) in
+                match vm_run_chunks 2000 2000 prog (vm_init prog) with
+                | FHalted s => Lst [Sym (s_ "halted"); Int (Z.of_N (sp_of s)); Lst (map (enc_value 50) (globals s))]
+                | FFailed e => Lst [Sym (s_ "failed"); enc_perr e]
+                | FCrashed _ => Lst [Sym (s_ "crashed")]
+                | FOutOfFuel => Lst [Sym (s_ "outoffuel")]
+                end
+            end
+        end
+      else Sym (s_ "decode-error")
+  | _ => Sym (s_ "decode-error")
+  end.
